@@ -147,6 +147,7 @@ impl System for Sys {
         // (b) extreme layer + one more ordinary step
         if hist.len() <= self.extreme_depth {
             for e in &self.extreme {
+                crate::engine::watch_note(&e.text);
                 let mut v = rebuild();
                 let mut o = Out::default();
                 let r = guarded(|| {
